@@ -1,7 +1,7 @@
 from props import COMMON_TRUSTED
 
 SPEC = {
-    "translators": ["tr_reader.py", "tr_layouts.py", "tr_cffdict.py"],
+    "translators": ["tr_reader.py", "tr_layouts.py", "tr_cffdict.py", "tr_glyf.py", "tr_glyfcmap.py"],
     "harness": "c15",
     "cases": {"quick": 15000, "thorough": 400000},
     "profiles": {"quick": ["debug", "release"], "thorough": ["debug", "release"]},
